@@ -40,6 +40,13 @@ function main() -> void { for (int i = 0; i < 3; i = i + 1) { N a = new N(i); N 
 function main() -> void { A a = new A(); echo(a.f(1)); echo(a.f(2L)); echo(a.f(1.5f)); long w = 3; echo(a.f(w)); }""",
 }
 
+# qubits declared after gates have already run (late locals, a helper's local, an object created mid-run), so that what one execution
+# leaves in the simulator's buffers differs from the all-zero start
+PROGRAMS["late-allocation"] = """function main() -> void { @tracked qubit a; x(a); @tracked qubit b; x(a); echo(measure a); echo(measure b); }"""
+PROGRAMS["late-allocation-helper"] = """class Q { public qubit q; public constructor() -> Q = default; }
+function probe() -> bit { qubit t; return measure t; }
+function main() -> void { qubit a; x(a); echo(probe()); Q o = new Q(); h(a); echo(measure o.q); qubit[2] late; echo(measure late[1]); echo(measure a); }"""
+
 # generic code whose type-parameter names coincide with concrete class names, with allocations of the concrete class before and after
 # allocations made inside the generic context, and the same generic class bound to different arguments in different orders
 PROGRAMS["generic-param-named-like-class"] = """class Item { public int weight = 1; public constructor() -> Item = default; }
@@ -73,8 +80,27 @@ def ndraws(src):
     return len((r.rec or {}).get("draws", []))
 
 
+def _r(x):
+    return round(x, 9) + 0.0
+
+
+OBS_FIELDS = ["status", "stdout", "message", "tracked counts", "emitted QASM", "probability offered at each draw", "final amplitudes"]
+
+
+def diff_of(a, b):
+    """the first component in which two observations differ, rendered"""
+    for name, x, y in zip(OBS_FIELDS, a, b):
+        if x != y:
+            return "%s: %s  versus fresh  %s" % (name, str(x)[:300], str(y)[:300])
+    return "(identical)"
+
+
 def obs(rec):
-    return (rec.get("status"), rec.get("stdout"), rec.get("msg") if rec.get("status") != "ok" else None, str(sorted((rec.get("tracked") or {}).items())), rec.get("qasm"))
+    # besides what the user sees, the probability offered at every measurement/reset draw and the final amplitudes: a leaked quantum
+    # state is invisible in the outcomes as long as the scripted outcome stays possible
+    draws = [(d[0], d[1], _r(d[2])) for d in (rec.get("draws") or [])]
+    amps = [(_r(a[0]), _r(a[1])) for a in (rec.get("amps") or [])]
+    return (rec.get("status"), rec.get("stdout"), rec.get("msg") if rec.get("status") != "ok" else None, str(sorted((rec.get("tracked") or {}).items())), rec.get("qasm"), str(draws), str(amps))
 
 
 _N = 2
@@ -82,7 +108,7 @@ _N = 2
 
 def _one(name):
     src = PROGRAMS.get(name) or FRONTIER[name]
-    base = vdrv.run_src(src, gc="own", warn=0, want="tracked,qasm")
+    base = vdrv.run_src(src, gc="own", warn=0, want="tracked,qasm,amps")
     if base.crash or base.rec is None:
         return name, [("-", "the program could not be run at all: %s %s" % (base.crash, base["fd2"][:300]))], 1
     if base.rec.get("stage") != "run":
@@ -95,7 +121,7 @@ def _one(name):
     fresh = {}
     n = 1
     for sc in scripts:
-        r = vdrv.run_src(src, gc="own", warn=0, want="tracked,qasm", draws=",".join(map(str, sc)))
+        r = vdrv.run_src(src, gc="own", warn=0, want="tracked,qasm,amps", draws=",".join(map(str, sc)))
         n += 1
         if r.crash:
             return name, [(sc, "fresh run died: %s" % r.crash)], n
@@ -105,7 +131,7 @@ def _one(name):
         for variant, extra in (("plain", {}), ("analyse-twice", {"analyse_times": 2}), ("reanalyse-between", {"reanalyse_between": 1})):
             if variant != "plain" and combo != tuple([scripts[-1]] * _N) and combo != tuple([scripts[0]] * _N):
                 continue
-            r = vdrv.run_job({"id": "s", "kind": "run", "opts": dict({"shots": _N, "gc": "own", "warn": 0, "want": "tracked,qasm", "draws": "/".join(",".join(map(str, sc)) for sc in combo)}, **extra),
+            r = vdrv.run_job({"id": "s", "kind": "run", "opts": dict({"shots": _N, "gc": "own", "warn": 0, "want": "tracked,qasm,amps", "draws": "/".join(",".join(map(str, sc)) for sc in combo)}, **extra),
                               "blobs": {"src": src}})
             n += _N
             recs = r["records"]
@@ -114,7 +140,7 @@ def _one(name):
                 continue
             for i, (sc, rec) in enumerate(zip(combo, recs)):
                 if obs(rec) != fresh[sc]:
-                    bad.append((combo, "%s: shot %d (draw script %s) of a %d-shot run on one AST gives %r, a fresh parse-analyse-run with the same script gives %r" % (variant, i, list(sc), _N, obs(rec)[:4], fresh[sc][:4])))
+                    bad.append((combo, "%s: shot %d (draw script %s) of a %d-shot run on one AST differs from a fresh parse-analyse-run with the same script in %s" % (variant, i, list(sc), _N, diff_of(obs(rec), fresh[sc]))))
                     break
     return name, bad, n
 
@@ -144,7 +170,7 @@ def corpus(tier):
 
 def _corpus_one(item):
     name, src = item
-    fresh = vdrv.run_src(src, gc="own", warn=0, want="tracked,qasm")
+    fresh = vdrv.run_src(src, gc="own", warn=0, want="tracked,qasm,amps")
     if fresh.crash or fresh.rec is None:
         return name, src, None, 1          # crashes are C12's subject
     if fresh.rec.get("stage") != "run":
@@ -152,7 +178,7 @@ def _corpus_one(item):
     f = obs(fresh.rec)
     probs = []
     for variant, extra in (("plain", {}), ("reanalyse-between", {"reanalyse_between": 1})):
-        r = vdrv.run_job({"id": "s", "kind": "run", "opts": dict({"shots": _N, "gc": "own", "warn": 0, "want": "tracked,qasm"}, **extra), "blobs": {"src": src}})
+        r = vdrv.run_job({"id": "s", "kind": "run", "opts": dict({"shots": _N, "gc": "own", "warn": 0, "want": "tracked,qasm,amps"}, **extra), "blobs": {"src": src}})
         recs = r["records"]
         if r.crash == "timeout":
             return name, src, "timeout", 1 + _N      # reported as a cap, never as a violation
@@ -161,7 +187,7 @@ def _corpus_one(item):
             continue
         for i, rec in enumerate(recs):
             if obs(rec) != f:
-                probs.append("%s: shot %d of a %d-shot run on one AST gives %r, a fresh parse-analyse-run (same default draws) gives %r" % (variant, i, _N, obs(rec)[:4], f[:4]))
+                probs.append("%s: shot %d of a %d-shot run on one AST differs from a fresh parse-analyse-run (same default draws) in %s" % (variant, i, _N, diff_of(obs(rec), f)))
                 break
     return name, src, probs, 1 + 2 * _N
 
@@ -182,7 +208,7 @@ def main(tier):
         ncorpus += 1
         for p in probs[:1]:
             fam = name.split(":")[0] + ":" + name.split(":")[1]
-            ck.violation("corpus:%s:%s" % (fam, p.split(":")[0]), "%s\nprogram (%s):\n%s" % (p, name, src), {"tool": "vdrv", "job": {"kind": "run", "opts": {"shots": _N, "gc": "own", "warn": 0, "want": "tracked,qasm"}, "blobs": {"src": src}}})
+            ck.violation("corpus:%s:%s" % (fam, p.split(":")[0]), "%s\nprogram (%s):\n%s" % (p, name, src), {"tool": "vdrv", "job": {"kind": "run", "opts": {"shots": _N, "gc": "own", "warn": 0, "want": "tracked,qasm,amps"}, "blobs": {"src": src}}})
     frontier_in, frontier_out = 0, 0
     for name, bad, n in vdrv.pmap(_one, list(PROGRAMS) + list(FRONTIER), chunksize=1):
         total += n
